@@ -265,6 +265,53 @@ fn cli_layer(ctx: &Ctx) {
     }
 }
 
+/// The password reaches lock/unlock through the tool's input layer: exact bytes in, exact bytes used.
+fn cli_password_edges(ctx: &Ctx) {
+    let mut rng = Rng::fork(ctx.seed, "C15-cli-edges");
+    let wd = WorkDir::new("c15e");
+    let pws: Vec<String> = vec!["alice".into(), "alice\n".into(), "alice\r\n".into(), "alice ".into(), " alice".into(), "\n".into(), "tab\t".into(), "wide\u{3000}".into()];
+    for (i, w) in pws.iter().enumerate() {
+        let key = rng.arr32();
+        let locked = refspec::lock_sk(&key, w.as_bytes(), &rng.arr32());
+        let want = format!("PublicKey = {}", refspec::encode_pk(&refspec::pubkey_of(&key)));
+        // exact password: must unlock
+        let o = Cmd::new(&wd.path, &["key", "extract-pub", &locked, "--env-pass"]).pass(w).run();
+        ctx.eval();
+        if o.exit == Exit::Code(0) && o.stdout_s().trim() == want {
+            ctx.seen("cli: key locked under a whitespace-edged password unlocks with exactly that password");
+            ctx.distinct(&format!("edge|ok|{}", i));
+        } else {
+            ctx.violation("C15:cli:conforming-key-does-not-unlock-with-its-exact-password", json!({"password_hex": hex(w.as_bytes()), "exit": o.exit.describe(), "stderr": o.stderr_s()}));
+        }
+        // near misses: must not unlock
+        let mut near: Vec<String> = vec![format!("{}\n", w), format!("{}\r\n", w), format!("{} ", w), w.trim_end().to_string(), w.trim().to_string(), format!("{}\n\n", w)];
+        near.retain(|n| n != w && refspec::hmac_norm(n.as_bytes()) != refspec::hmac_norm(w.as_bytes()));
+        near.dedup();
+        for n in near {
+            let o = Cmd::new(&wd.path, &["key", "extract-pub", &locked, "--env-pass"]).pass(&n).run();
+            ctx.eval();
+            if o.exit == Exit::Code(1) && o.stdout.is_empty() {
+                ctx.seen("cli: near-miss password does not unlock");
+                ctx.distinct(&format!("edge|near|{}|{}", i, hex(n.as_bytes())));
+            } else {
+                ctx.violation("C15:cli:different-password-unlocks", json!({"locked_under_hex": hex(w.as_bytes()), "offered_hex": hex(n.as_bytes()), "exit": o.exit.describe(), "stdout": o.stdout_s()}));
+            }
+        }
+        // change-pass TO this password, then unlock with exactly it (reference and tool)
+        let start = refspec::lock_sk(&key, b"start", &rng.arr32());
+        let o = Cmd::new(&wd.path, &["key", "change-pass", &start, "--env-pass"]).pass("start").env("KESTREL_NEW_PASSWORD", w).run();
+        ctx.eval();
+        let newl = o.stdout_s().lines().find_map(|l| l.strip_prefix("PrivateKey = ").map(|x| x.trim().to_string())).unwrap_or_default();
+        let ref_ok = refspec::unlock_sk(&newl, w.as_bytes()) == Ok(key);
+        let o2 = Cmd::new(&wd.path, &["key", "extract-pub", &newl, "--env-pass"]).pass(w).run();
+        if o.exit == Exit::Code(0) && ref_ok && o2.exit == Exit::Code(0) && o2.stdout_s().trim() == want {
+            ctx.seen("cli: change-pass to a whitespace-edged password is lossless");
+        } else {
+            ctx.violation("C15:cli:key-locked-by-change-pass-does-not-unlock-with-the-password-given", json!({"new_password_hex": hex(w.as_bytes()), "change_pass_exit": o.exit.describe(), "reference_unlock_ok": ref_ok, "tool_unlock_exit": o2.exit.describe(), "stderr": o2.stderr_s()}));
+        }
+    }
+}
+
 pub fn run(ctx: &Ctx) {
     ctx.rule(
         "the CLI's real lock/unlock code (compiled from /repo/src/cli/src/keyring.rs) against the documented format built on OpenSSL: lock output string-equal to the \
@@ -278,6 +325,9 @@ pub fn run(ctx: &Ctx) {
     wrong_pw(ctx);
     malformed_strings(ctx);
     cli_layer(ctx);
+    cli_password_edges(ctx);
+    ctx.require("cli: near-miss password does not unlock", 20);
+    ctx.require("cli: change-pass to a whitespace-edged password is lossless", 6);
     ctx.require("lock == spec", 50);
     ctx.require("single-bit change in", 672);
     ctx.require("wrong password rejected", 50);
